@@ -6,6 +6,17 @@
 //                 GaussianPrediction, StateModel, ExogenousModel).
 // kind propagate: F, Q, cur (n x k), old (n x k), optional B, c; ints ss se —
 //                 LinearStateModel::propagate alone.
+// kind sequence:  ONE KFPrediction object driven through int nsteps predicts over a harness LinearStateModel
+//                 whose F, Q (and exogenous B, c) change between the calls.  Per step s: F_s, Q_s, optional B_s, c_s
+//                 = the matrices the live model holds at that call; means_s, covs_s, weights_s, old_means_s,
+//                 old_covs_s, old_weights_s (component count may change between steps); word steps, token s:
+//                   first      first use of the fresh object
+//                   same       nothing changed since the previous call
+//                   set        the harness changed the model's matrices through setters
+//                   time       ... through StateModel::setSamplingTime(s) of the time-varying model
+//                   moveassign the (used) object was move-assigned from another, used, KFPrediction holding model s
+//                   movector   a new KFPrediction was move-constructed from the (used) object; model unchanged
+//                   movector+set  move-constructed, then the matrices changed
 #define VF_MAIN
 #include "common.hpp"
 #include <BayesFilters/ExogenousModel.h>
@@ -28,6 +39,85 @@ struct AffineExo : public ExogenousModel {
     VectorDescription getStateDescription() const override { return VectorDescription(B_.rows()); }
 };
 
+// exogenous model whose parameters the harness can change between calls
+struct VarExo : public ExogenousModel {
+    MatrixXd B_, c_;
+    VarExo(const MatrixXd& B, const MatrixXd& c) : B_(B), c_(c) {}
+    void propagate(const Ref<const MatrixXd>& cur, Ref<MatrixXd> prop) override { prop = B_ * cur + c_.replicate(1, cur.cols()); }
+    bool setProperty(const std::string&) override { return false; }
+    VectorDescription getStateDescription() const override { return VectorDescription(B_.rows()); }
+};
+
+// a legal time-varying linear state model: F(T), Q(T) selected by setSamplingTime, or set directly
+struct TimeVarying : public LinearStateModel {
+    MatrixXd F_, Q_;
+    std::vector<MatrixXd> Fs_, Qs_;
+    TimeVarying(const MatrixXd& F, const MatrixXd& Q) : F_(F), Q_(Q) {}
+    MatrixXd getStateTransitionMatrix() override { return F_; }
+    MatrixXd getNoiseCovarianceMatrix() override { return Q_; }
+    MatrixXd getJacobian() override { return F_; }
+    bool setProperty(const std::string&) override { return false; }
+    VectorDescription getStateDescription() override { return VectorDescription(F_.rows()); }
+    bool setSamplingTime(const double& t) override { const std::size_t i = static_cast<std::size_t>(t); F_ = Fs_.at(i); Q_ = Qs_.at(i); return true; }
+    void set(const MatrixXd& F, const MatrixXd& Q) { F_ = F; Q_ = Q; }
+};
+
+static std::string sfx(const std::string& n, long s) { return n + "_" + std::to_string(s); }
+
+static void run_sequence(const vf::Case& c) {
+    const long nsteps = c.integer("nsteps");
+    const std::vector<std::string>& how = c.word("steps");
+    const bool have_exo = c.has_mat("B_0");
+    // the subject and its live model / exogenous model (raw observers; ownership is inside the KFPrediction)
+    TimeVarying* tv = new TimeVarying(c.mat("F_0"), c.mat("Q_0"));
+    VarExo* ex = nullptr;
+    for (long s = 0; s < nsteps; s++) { tv->Fs_.push_back(c.mat(sfx("F", s))); tv->Qs_.push_back(c.mat(sfx("Q", s))); }
+    if (have_exo) { ex = new VarExo(c.mat("B_0"), c.mat("c_0")); tv->add_exogenous_model(std::unique_ptr<ExogenousModel>(ex)); }
+    std::unique_ptr<KFPrediction> kf(new KFPrediction(std::unique_ptr<LinearStateModel>(tv)));
+    vf::out_begin(c.id);
+    for (long s = 0; s < nsteps; s++) {
+        const MatrixXd& F = c.mat(sfx("F", s)); const MatrixXd& Q = c.mat(sfx("Q", s));
+        const std::string h = how[s];
+        if (h == "movector" || h == "movector+set") {
+            vf::Entry e("KFPrediction::KFPrediction(KFPrediction&&)");
+            std::unique_ptr<KFPrediction> k2(new KFPrediction(std::move(*kf)));
+            kf = std::move(k2);
+        }
+        if (h == "set" || h == "movector+set") { tv->set(F, Q); if (ex) { ex->B_ = c.mat(sfx("B", s)); ex->c_ = c.mat(sfx("c", s)); } }
+        else if (h == "time") { kf->getStateModel().setSamplingTime(static_cast<double>(s)); if (ex) { ex->B_ = c.mat(sfx("B", s)); ex->c_ = c.mat(sfx("c", s)); } }
+        else if (h == "moveassign") {
+            // a donor that has already predicted once with ITS model (model s), then moved into the subject
+            TimeVarying* tv2 = new TimeVarying(F, Q);
+            for (long j = 0; j < nsteps; j++) { tv2->Fs_.push_back(c.mat(sfx("F", j))); tv2->Qs_.push_back(c.mat(sfx("Q", j))); }
+            VarExo* ex2 = nullptr;
+            if (have_exo) { ex2 = new VarExo(c.mat(sfx("B", s)), c.mat(sfx("c", s))); tv2->add_exogenous_model(std::unique_ptr<ExogenousModel>(ex2)); }
+            KFPrediction donor{std::unique_ptr<LinearStateModel>(tv2)};
+            const long n = F.rows();
+            GaussianMixture a(2, n), b(2, n);
+            a.mean().setConstant(0.5); for (int i = 0; i < 2; i++) a.covariance(i) = MatrixXd::Identity(n, n);
+            donor.predict(a, b);
+            { vf::Entry e("KFPrediction::operator=(KFPrediction&&)"); *kf = std::move(donor); }
+            tv = tv2; ex = ex2;
+        }
+        const MatrixXd& means = c.mat(sfx("means", s)); const MatrixXd& covs = c.mat(sfx("covs", s));
+        const long n = means.rows(), k = means.cols();
+        GaussianMixture prev(k, n);
+        prev.mean() = means; prev.covariance() = covs; prev.weight() = c.mat(sfx("weights", s));
+        GaussianMixture prev_copy(prev);
+        GaussianMixture pred(k, n);
+        pred.mean() = c.mat(sfx("old_means", s)); pred.covariance() = c.mat(sfx("old_covs", s)); pred.weight() = c.mat(sfx("old_weights", s));
+        { vf::Entry e("KFPrediction::predict"); kf->predict(prev, pred); }
+        vf::out_int(sfx("components", s), pred.components);
+        vf::out_int(sfx("dim", s), pred.dim);
+        vf::out_mat(sfx("means", s), pred.mean());
+        for (long i = 0; i < (long)pred.components; i++) vf::out_mat(sfx("cov" + std::to_string(i), s), pred.covariance(i));
+        vf::out_mat(sfx("weights", s), pred.weight());
+        vf::out_int(sfx("prev_unchanged", s), vf::bit_equal(prev.mean(), prev_copy.mean()) && vf::bit_equal(prev.covariance(), prev_copy.covariance())
+                                                 && vf::bit_equal(prev.weight(), prev_copy.weight()) && prev.components == prev_copy.components ? 1 : 0);
+    }
+    vf::out_end();
+}
+
 struct LTI : public LTIStateModel {
     long n_;
     LTI(const MatrixXd& F, const MatrixXd& Q) : LTIStateModel(F, Q), n_(F.rows()) {}
@@ -45,6 +135,7 @@ static void set_flags(GaussianPrediction* gp, StateModel& sm, const vf::Case& c,
 int main() {
     vf::Case c;
     while (vf::read_case(std::cin, c)) {
+        if (c.kind == "sequence") { run_sequence(c); continue; }
         const MatrixXd& F = c.mat("F"); const MatrixXd& Q = c.mat("Q");
         const bool have_exo = c.has_mat("B");
         long exo_calls = 0;
